@@ -33,6 +33,13 @@ Theorem C01_check_tree_prune_sound : forall s, 2 <= length s -> hd 0 s <> 0 -> F
 Proof. exact check_tree_spec. Qed.
 Print Assumptions C01_check_tree_prune_sound.
 
+(* on the prefix code of any tree with >= 2 nodes, check_tree returns success, the whole string as
+   part_considered, and exactly the parent/left/right indexing of that tree (prefix numbering) *)
+Theorem C01_check_tree_arrays : forall u, 2 <= size u ->
+  check_tree (pre u) = Ok (true, Some (pre u), arr u 0 None).
+Proof. exact check_tree_arrays. Qed.
+Print Assumptions C01_check_tree_arrays.
+
 (* the remaining behaviours of check_tree, as the code has them *)
 Theorem C01_check_tree_crash : forall a r, check_tree (0 :: a :: r) = Crash.
 Proof. exact check_tree_crash. Qed.
@@ -79,6 +86,9 @@ Example C01_ex_counts : map (fun n => match allowed n with Ok l => length l | _ 
 Proof. vm_compute. reflexivity. Qed.
 Example C01_ex_check_ok : exists t, check_tree [2;0;1;0] = Ok (true, Some [2;0;1;0], t).
 Proof. eexists. vm_compute. reflexivity. Qed.
+Example C01_ex_arrays : arr (B L (U L)) 0 None =
+  [mkNode 2 None (Some 1) (Some 2); mkNode 0 (Some 0) None None; mkNode 1 (Some 0) (Some 3) None; mkNode 0 (Some 2) None None].
+Proof. vm_compute. reflexivity. Qed.
 Example C01_ex_check_fail : exists t, check_tree [1;0;0;0] = Ok (false, Some [1;0;0], t).
 Proof. eexists. vm_compute. reflexivity. Qed.
 Example C01_ex_core3 : exists out, generate 3 core_maths = Ok out /\ length out = 22 /\
